@@ -63,8 +63,9 @@ def load(key: str):
 def _prune(d: Path, keep: int = 30000) -> None:
     """the cache holds the results for the trees seen lately: beyond `keep` entries the oldest go"""
     try:
-        if os.getpid() % 64:                # one process in sixty-four looks
+        if os.getpid() % 64 or _DIGESTS.get('pruned'):      # one process in sixty-four looks, once
             return
+        _DIGESTS['pruned'] = True
         files = sorted(d.glob('*.json'), key=lambda p: p.stat().st_mtime)
         for p in files[:-keep]:
             p.unlink(missing_ok=True)
